@@ -15,7 +15,7 @@ func notYet(id string) {
 }
 
 func init() {
-	for _, id := range []string{"C02", "C03", "C04", "C05", "C08", "C10", "C11"} {
+	for _, id := range []string{"C03", "C04", "C05", "C08", "C10", "C11"} {
 		notYet(id)
 	}
 	claim("C06", "other",
@@ -67,4 +67,5 @@ func init() {
 		"(in progress) who-may-construct rule for parse.Error and offset provenance", "", "who-may-construct / value-origin rules on SSA", "DESIGN.md 4/C15", "in progress")
 	claim("C07", "other",
 		"(in progress) IsIdent/IsURLUnquoted reuse the lexer's scanners", "", "call-shape rule on SSA", "DESIGN.md 4/C07", "in progress")
+	claim("C02", "other", "(in progress) cursor engine", "", "abstract interpretation", "DESIGN.md 4/C02", "in progress")
 }
